@@ -784,6 +784,50 @@ func ruleExamineBypasses(r *Run, rule string) {
 		bad = "examineBypasses never answers true"
 	}
 	r.Check(rule, "examineBypasses:true-only-if-completed", bpos, bad == "", "%s", orOK(bad, "true exactly on the Completed branch"))
+
+	// the converse, by assume-and-refute: for a present group whose status is Completed no path may answer
+	// anything but true (a bypassed plan must be recorded as Completed, not examined further)
+	var param types.Object
+	if ps := fn.Decl.Type.Params; ps != nil && len(ps.List) == 1 && len(ps.List[0].Names) == 1 {
+		param = fl.Info.ObjectOf(ps.List[0].Names[0])
+	}
+	if param == nil {
+		r.Unresolved(rule, "examineBypasses has one parameter")
+		return
+	}
+	isP := func(e ast.Expr) bool { return ObjOf(fl.Info, ast.Unparen(e)) == param }
+	atom := func(e ast.Expr) (string, bool, bool) {
+		if x, op, ok := IsNilCompare(fl.Info, e); ok && isP(x) {
+			return "nil", op == token.NEQ, true
+		}
+		for _, st := range []string{"workflow.Completed", "workflow.Failed", "workflow.NotStarted", "workflow.Running", "workflow.Stopped"} {
+			if neg, ok := EqAtom(fl.Info, e, func(x ast.Expr) bool {
+				b, m := FieldPath(fl.Info, x, "workflow.Checks", "State", "Status")
+				return m && isP(b)
+			}, st); ok {
+				return "st:" + st, neg, true
+			}
+		}
+		return "", false, false
+	}
+	asg := map[string]bool{"nil": false, "st:workflow.Completed": true, "st:workflow.Failed": false, "st:workflow.NotStarted": false, "st:workflow.Running": false, "st:workflow.Stopped": false}
+	bad2 := ""
+	var bpos2 = fn.Decl.Pos()
+	for i := range paths {
+		p := &paths[i]
+		if p.Exit != ExitReturn || PathRefuted(fl, p, -1, asg, atom) {
+			continue
+		}
+		for _, e := range p.Ev {
+			if e.Kind == EvReturn && e.Depth == 0 && len(e.Rhs) == 1 && ValueKey(fl.Info, e.Rhs[0]) != "true" && bad2 == "" {
+				if v, known := (&refuter{fl: fl, asg: asg, atom: atom, bound: map[types.Object][2]bool{}}).eval(e.Rhs[0]); known && v {
+					continue
+				}
+				bad2, bpos2 = "for a present bypass group whose status is Completed a path answers "+ExprStr(e.Rhs[0])+": a plan whose bypass checks all succeeded is examined as if it had run, and ends Failed on its untouched blocks", e.Pos
+			}
+		}
+	}
+	r.Check(rule, "examineBypasses:completed-group-answers-true", bpos2, bad2 == "", "%s", orOK(bad2, "present ∧ Completed ⇒ true on every path"))
 }
 
 // ruleYieldDiscipline: in fn (and its literals) the bool result of every call of a
